@@ -37,6 +37,7 @@ function syntaxOne(c) {
 // ---------------------------------------------------------------- universal logging proxy
 const uNames = new WeakMap();
 let noNames = false;
+let quietU = false; // do not log meta-object operations that lowering legitimately performs differently (ownKeys, .call/.apply lookups)
 function primOf(name) { let h = 0; for (let i = 0; i < name.length; i++) h = (h * 31 + name.charCodeAt(i)) % 89; return h + 2; }
 function mkU(name, log, opts) {
   if (name.length > 60) name = name.slice(0, 28) + '~' + name.slice(-28);
@@ -49,6 +50,7 @@ function mkU(name, log, opts) {
       if (k === Symbol.iterator) return function* () { log.push(name + ':iter'); yield sub(name + '[i0]'); yield sub(name + '[i1]'); };
       if (typeof k === 'symbol') return undefined;
       if (k === 'then' || k === '__tag') return undefined;
+      if (quietU && (k === 'call' || k === 'apply' || k === 'bind')) return Function.prototype[k];
       log.push('get ' + name + '.' + k);
       if (opts.nullish === k) return undefined;
       return sub(name + '.' + k);
@@ -58,7 +60,7 @@ function mkU(name, log, opts) {
     deleteProperty(t, k) { log.push('delete ' + name + '.' + String(k)); return true; },
     apply(t, thisArg, args) { log.push('call ' + name + ' this=' + ser(thisArg) + ' args=' + args.map(x => ser(x)).join(',')); return sub(name + '()'); },
     construct(t, args, nt) { log.push('new ' + name + ' args=' + args.map(x => ser(x)).join(',') + (nt === px ? '' : ' nt=' + ser(nt))); return sub('new ' + name); },
-    ownKeys() { log.push('keys ' + name); return ['k1', 'k2']; },
+    ownKeys() { if (!quietU) log.push('keys ' + name); return ['k1', 'k2']; },
     getOwnPropertyDescriptor(t, k) { if (k === 'k1' || k === 'k2') return { value: sub(name + '.' + k), enumerable: true, configurable: true, writable: true }; return undefined; },
     getPrototypeOf() { return Function.prototype; },
     defineProperty(t, k, d) { log.push('define ' + name + '.' + String(k)); return true; },
@@ -122,6 +124,13 @@ function ser(v, depth, seen) {
   }
   seen.pop();
   return out;
+}
+
+function thrown(e) {
+  const t = typeof e;
+  if (t === 'function' || (t !== 'object') || e === null || uNames.has(e)) return ser(e);
+  if (typeof e.message === 'string' && typeof e.name === 'string') return errClass(e);
+  return ser(e);
 }
 
 // ---------------------------------------------------------------- run
@@ -211,7 +220,7 @@ function runOne(code, c) {
         res = 'ret=' + ser(r);
       } catch (e) {
         if (e && e.code === 'ERR_SCRIPT_EXECUTION_TIMEOUT') res = 'TIMEOUT';
-        else res = 'throw=' + (e instanceof Object && !(e instanceof Error) ? ser(e) : errClass(e));
+        else res = 'throw=' + thrown(e);
       }
       out.push(log.join(',') + '|' + res);
     }
@@ -246,7 +255,7 @@ async function runOneAsync(code, c) {
           res = 'aret=' + ser(r);
         } else res = 'ret=' + ser(r);
       } catch (e) {
-        res = 'throw=' + (e instanceof Object && !(e instanceof Error) ? ser(e) : errClass(e));
+        res = 'throw=' + thrown(e);
       }
       // let pending microtasks settle
       await new Promise(r => setImmediate(r));
@@ -264,6 +273,7 @@ const ops = {
     for (const c of req.cases) {
       const obs = [];
       noNames = !!c.noNames;
+      quietU = !!c.quiet;
       for (const code of c.codes) obs.push(c.async ? await runOneAsync(code, c) : runOne(code, c));
       r.push(obs);
     }
